@@ -239,6 +239,23 @@ def run(ctx: Ctx):
                 ch = [c for c in ch if c]
                 streams.append(ch)
                 metas.append({"src": "edit", "chunks": [c.hex() for c in ch]})
+    # length checks: DATA frames with a valid CRC whose data field is shorter than 3 or longer than 128 bytes (up to what still fits the
+    # receive buffer), between two ordinary frames; the reference decoder either discards such a frame or handles all of it
+    odd_idx = set()
+    lrng = __import__("random").Random(ctx.seed + 77)
+    for ln in (0, 1, 2, 3, 4, 127, 128, 129, 130, 200, 255, 256, 257, 258, 300, 400, 512, 700, 900):
+        for kind in ("seq", "rand") if (not ctx.quick or ln in (2, 129, 256, 257, 300, 900)) else ("seq",):
+            pl = [(i * 5 + 1) % 256 for i in range(ln)] if kind == "seq" else [lrng.randrange(256) for _ in range(ln)]
+            for frm, retx in ((0, 0), (1, 0), (0, 1)):
+                fr = ashref.wire({"type": "DATA", "frm": frm, "retx": retx, "ack": 0, "pl": pl})
+                st = va + fr + ashref.wire({"type": "DATA", "frm": 1, "retx": 0, "ack": 0, "pl": [1, 2, 3]}) + vd0
+                if len(fr) > maxbuf - 40:
+                    continue
+                for ch in ([st], [st[:len(va) + len(fr) // 2], st[len(va) + len(fr) // 2:]], [st[i:i + 100] for i in range(0, len(st), 100)]):
+                    if not (3 <= ln <= 128):
+                        odd_idx.add(len(streams))
+                    streams.append(ch)
+                    metas.append({"src": "length", "len": ln, "chunks": [c.hex() for c in ch]})
     n_enum = len(streams)
     rng = ctx.rng
     for _ in range(2000 if ctx.quick else 40000):
@@ -249,6 +266,9 @@ def run(ctx: Ctx):
     B = 500
     batches = [streams[i:i + B] for i in range(0, len(streams), B)]
     traces = [t for b in pmap(run_streams, batches, chunksize=1) for t in b]
+    for i in odd_idx:
+        for e in traces[i]:
+            e["odd"] = 1
     # memory bound under flag-free garbage
     total = (8 if ctx.quick else 64) << 20
     for chunk in ((4096, 65536) if ctx.quick else (4096, 65536, 1 << 20)):
@@ -259,7 +279,7 @@ def run(ctx: Ctx):
     ctx.distinct_nontrivial = len({str(m) for m in metas})
     ctx.rule = (f"all streams of up to {L} symbols over {len(symbols)} symbols (9 reserved-rich bytes + 3 whole valid frames) under all "
                 f"2^(n-1) chunkings at symbol boundaries, and every single insertion of a reserved / escape byte, single deletion and single re-escaping in four "
-                f"valid frames between two valid frames, delivered whole / split at the edit / byte by byte ({n_enum} runs); random concatenations of valid frames with flipped / deleted / "
+                f"valid frames between two valid frames, delivered whole / split at the edit / byte by byte; valid-CRC DATA frames with data fields of 0..900 bytes (length check) ({n_enum} runs); random concatenations of valid frames with flipped / deleted / "
                 "inserted bytes under random chunkings (read sizes 1..120); flag-free garbage runs under tracemalloc; distinct = distinct chunk list")
     ctx.add_sample({"chunks": metas[n_enum + 1]["chunks"], "trace": traces[n_enum + 1]})
     ctx.validate_traces("Trace_AshRx", traces, constants={"MaxAtt": "5", "MaxBuf": str(maxbuf)}, metas=metas,
@@ -267,7 +287,7 @@ def run(ctx: Ctx):
     ctx.exhaustive = False
     ctx.assumptions += ["reads plus unterminated residue stay below the receive-buffer bound (property quantifier)",
                         "memory clause: tracemalloc measurement is harness-side, TLC decides only the inequality 4*(bound+read size)+64KiB",
-                        "DATA payload lengths outside 3..128 and ACK/NAK frames with surplus data are accepted by the reference decoder (latitude)"]
+                        "a DATA frame whose data field is outside 3..128 bytes may be discarded (ASH text) or handled whole (what bellows does up to 256 bytes) - both are behaviours of the reference decoder; ACK/NAK frames with surplus data are accepted (latitude)"]
 
 
 def replay(ctx: Ctx, data):
@@ -277,6 +297,9 @@ def replay(ctx: Ctx, data):
         tr = mem_trace(m["total"], m["chunk"], int(ash.MAX_BUFFER_SIZE))
     else:
         tr = run_stream([bytes.fromhex(c) for c in m["chunks"]])
+        if m["src"] == "length" and not 3 <= m["len"] <= 128:
+            for e in tr:
+                e["odd"] = 1
     ctx.validate_traces("Trace_AshRx", [tr], constants={"MaxAtt": "5", "MaxBuf": str(int(ash.MAX_BUFFER_SIZE))},
                         metas=[m], label="receiver bytes", sig=sig)
     ctx.add_sample(tr)
